@@ -241,6 +241,7 @@ func checkC01(r *Run) {
 	// E1b
 	c01Grammar(r)
 	c01EncodeTotal(r)
+	c01MarshalFresh(r)
 	r.Exhaustive = true
 	_ = ast.Inspect
 }
@@ -428,4 +429,36 @@ func c01EncodeTotal(r *Run) {
 		}
 	}
 	r.Floor("encode-total", n, 10, "error returns of the encoder")
+}
+
+// c01MarshalFresh: the bytes Marshal returns belong to the caller: they come from a buffer created in that call
+// (a local bytes.Buffer), not from a pool, a field or a package variable that a later Marshal will overwrite.
+func c01MarshalFresh(r *Run) {
+	p := r.P
+	m := p.Fn("p9p:(codec9p).Marshal")
+	if m == nil {
+		r.Undecided("marshal-fresh", "(codec9p).Marshal", token.NoPos, "anchor not found")
+		return
+	}
+	n := 0
+	for _, ret := range returnsOf(m) {
+		if len(ret.Results) != 2 || isNilConst(ret.Results[0]) {
+			continue
+		}
+		n++
+		ok := false
+		why := "the returned slice is not the contents of a buffer created in this call"
+		if c, isC := ret.Results[0].(*ssa.Call); isC && calleeName(&c.Call) == "(*bytes.Buffer).Bytes" {
+			if a, isA := c.Call.Args[0].(*ssa.Alloc); isA && a.Parent() == m {
+				ok = true
+			} else {
+				why = "the buffer whose bytes are returned is not a local of this call (pooled/shared): a later Marshal overwrites bytes the caller still holds"
+			}
+		}
+		if ms, isM := ret.Results[0].(*ssa.MakeSlice); isM && ms.Parent() == m {
+			ok = true
+		}
+		r.Check(ok, "marshal-fresh", "Marshal: the encoded bytes live in a buffer created by this call", ret.Pos(), why)
+	}
+	r.Floor("marshal-fresh", n, 1, "success return of Marshal")
 }
